@@ -472,7 +472,7 @@ func runGenerated(c *engine.Ctx) {
 			toks = append(toks, t)
 		}
 		sort.Strings(toks)
-		toks = append(toks, "x", "7", "256", "true", "green", "")
+		toks = append(toks, "x", "7", "256", "true", "green", "", "True") // ("True": a lexical near miss of a value)
 		var walk func(p []string)
 		walk = func(p []string) {
 			dead := false
@@ -544,7 +544,7 @@ func run(c *engine.Ctx) {
 			toks = append(toks, n)
 		}
 		sort.Strings(toks)
-		toks = append(toks, "x", "7", "256", "true", "green", "", "nosuch", "a+b:c d") // (the last one: characters a rendered path escapes)
+		toks = append(toks, "x", "7", "256", "true", "green", "", "nosuch", "True", "1", "a+b:c d") // (near misses of boolean values; the last one: characters a rendered path escapes)
 		// every path is validated three times on the same compiled schema: incomplete paths
 		// allowed, strict, allowed again (a verdict must not depend on earlier validations)
 		{
